@@ -57,7 +57,8 @@ const (
 	NNormalSeats   = 2
 	LockupBlocks   = 3 // DepositLockupBlocks
 	MinDepositSela = 5000 * 100000000
-	V2Votes        = 200     // DPoS v2 votes cast per vote transaction
+	V2Votes        = 200     // DPoS v2 votes cast per vote transaction (above DPoSV2EffectiveVotes = 100)
+	V2VotesLow     = 99      // one below the threshold; v2one adds a single vote
 	V2Lock         = 7200    // lock duration of a DPoS v2 vote (weight log10(7200/720) = 1)
 	V2StakeUntil   = 1000000 // StakeUntil of producers upgraded to DPoS v1+v2
 )
@@ -612,8 +613,17 @@ func (in *Inst) OpsFor(only []int) []string {
 				if p == nil || p.State() != state.Active || p.Identity() == state.DPoSV1 {
 					continue
 				}
-				if rights-used >= V2Votes && h+V2Lock <= p.Info().StakeUntil {
-					ops = append(ops, fmt.Sprintf("v2vote:%d>%d", v, i))
+				if h+V2Lock <= p.Info().StakeUntil {
+					// above, just below, and (after v2lo) exactly at DPoSV2EffectiveVotes (100)
+					if rights-used >= V2Votes {
+						ops = append(ops, fmt.Sprintf("v2vote:%d>%d", v, i))
+					}
+					if rights-used >= V2VotesLow {
+						ops = append(ops, fmt.Sprintf("v2lo:%d>%d", v, i))
+					}
+					if rights-used >= 1 {
+						ops = append(ops, fmt.Sprintf("v2one:%d>%d", v, i))
+					}
 				}
 			}
 			if ds := in.A.GetDetailedDPoSV2Votes(hashPtr(in.W.Voter[v].StakeHash())); len(ds) > 0 {
@@ -706,6 +716,12 @@ func (in *Inst) Apply(op string) {
 	case "v2vote":
 		v, c, _ := strings.Cut(arg, ">")
 		in.Process(in.TxV2Vote(h, atoi(v), atoi(c), V2Votes, h+V2Lock))
+	case "v2lo":
+		v, c, _ := strings.Cut(arg, ">")
+		in.Process(in.TxV2Vote(h, atoi(v), atoi(c), V2VotesLow, h+V2Lock))
+	case "v2one":
+		v, c, _ := strings.Cut(arg, ">")
+		in.Process(in.TxV2Vote(h, atoi(v), atoi(c), 1, h+V2Lock))
 	case "renew":
 		v := atoi(arg)
 		d := in.A.GetDetailedDPoSV2Votes(hashPtr(in.W.Voter[v].StakeHash()))[0]
